@@ -104,7 +104,7 @@ RULE = RULE % len(OPS)
 REQUIRED = (['op:' + o for o in OPS] + ['chunked-path-taken', 'in-memory-path-taken', 'presorted', 'tempdir', 'config.sort_buffersize',
             'history:cache-off-edit-reflected', 'history:cache-on-replayed-after-edit', 'history:cached-sources-not-reopened', 'history:pass-with-failing-source', 'history:header-edited'])
 
-KEYS = [None, 1, 2, 1.0, 'a', 'b', (1, 2), 3]
+KEYS = [None, 1, 2, 1.0, 'a', 'b', (1, 2), 3, 0, '', ()]
 
 
 def _tables(rng, op):
